@@ -882,7 +882,10 @@ def extra_checks(tier, seed):
     return [solve("C13/lemma/seq-snoc", [0 <= k, k < z3.Length(t)],
                   z3.Concat(z3.Extract(t, 0, k), z3.Unit(t[k])) == z3.Extract(t, 0, k + 1), 20000),
             solve("C13/lemma/seq-shift4", [], _shift4(t, k), 20000),
-            _bounded_parse(tier)]
+            _bounded_parse(tier)] + ([__import__("pyvc.replaylib", fromlist=["x"]).native_crosscheck(
+                "C13/bounded/subprotocol-negotiation", _NEGOTIATION_HARNESS,
+                "14 offers x strict / lenient on the server, 6 answers on the client, against a reference written from the "
+                "property")] if tier == "thorough" else [])
 
 
 # ------------------------------------------------------------------------------------------ replay on the real code
